@@ -1,7 +1,9 @@
 package main
 
 import (
+	"bufio"
 	"bytes"
+	"io"
 	"fmt"
 	"go/format"
 	"os"
@@ -153,7 +155,20 @@ func oracleC09(cx *CheckCtx, runs []*CaseRun) []Finding {
 		j := cx.R.Intn(i + 1)
 		shuffled[i], shuffled[j] = shuffled[j], shuffled[i]
 	}
-	for name, rs := range map[string][]res{"reversed order": runOrder(order, false), "shuffled order": runOrder(shuffled, false), "concurrently": runOrder(shuffled, true)} {
+	reversed := runOrder(order, false)
+	// reference = the job ALONE in a fresh process (see fresh.go); sampled, plus every job on
+	// which model and implementation already disagree
+	var sample []int
+	for i, r := range runs {
+		if len(r.Dis) > 0 && len(sample) < 20 && r.BuildPanic == "" {
+			sample = append(sample, i)
+		}
+	}
+	for k := 0; k < cx.N(80, 3000) && n > 0; k++ {
+		sample = append(sample, cx.R.Intn(n))
+	}
+	fs = append(fs, soloInterference(cx, runs, func(i int) []RenderObs { return reversed[i].obs }, sample)...)
+	for name, rs := range map[string][]res{"reversed order": reversed, "shuffled order": runOrder(shuffled, false), "concurrently": runOrder(shuffled, true)} {
 		for i, r := range rs {
 			cx.Stats.OracleCases++
 			ref := runs[i].Real
@@ -306,6 +321,10 @@ func oracleC10(cx *CheckCtx, runs []*CaseRun) []Finding {
 			exps = append(exps, expect{cr: cr, what: fmt.Sprintf("%v with writer failing at call %d", o.Kind, failAt), got: obs.Class + " " + eff,
 				line: fxLine{kind: "file", noFormat: noFormat, mis: mis, raw: raw, fmtOK: fmtOK, fmtOut: fmtOut, writerOK: failAt == 0, fsOK: true}})
 		}
+		// the same entry points with the writer types callers really pass (a fast path keyed on the
+		// writer's dynamic type must obey the same contract): pre-filled *bytes.Buffer,
+		// *strings.Builder, *bufio.Writer, *os.File; plain Render as well as RenderWithFile
+		fs = append(fs, writerKinds(cx, cr, ci, o, tmp)...)
 		// Save (files only)
 		if o.Kind != OpRender {
 			continue
@@ -418,6 +437,115 @@ func oracleC10(cx *CheckCtx, runs []*CaseRun) []Finding {
 				shape = "error-swallowed"
 			}
 			fs = append(fs, Finding{Property: "C10", Shape: shape, What: e.what + ": result and effects differ from the effect model", Case: e.cr.Case.Text(), Expected: trunc(want), Observed: trunc(e.got)})
+		}
+	}
+	return fs
+}
+
+// writerKinds: for the first render op of the case, the outcome and the bytes received through a
+// recording writer (the path the effect model is compared on) are the reference; every concrete
+// writer type must end up holding exactly <what it held before> + <those bytes on success,
+// nothing on failure>.
+func writerKinds(cx *CheckCtx, cr *CaseRun, ci int, o Op, tmp string) []Finding {
+	var fs []Finding
+	prep := func() (rl *Real, ok bool) {
+		rl = NewReal(&FormChooser{r: NewRng(uint64(ci)*7919 + 1), Fixed: -1})
+		defer func() {
+			if r := recover(); r != nil {
+				ok = false
+			}
+		}()
+		for _, op := range cr.Case.Ops {
+			if op.IsRender() {
+				break
+			}
+			rl.exec(op)
+		}
+		return rl, true
+	}
+	into := func(rl *Real, variant string, w io.Writer) (class string) {
+		defer func() {
+			if r := recover(); r != nil {
+				class = "panic"
+			}
+		}()
+		var err error
+		switch {
+		case o.Kind == OpRender:
+			err = rl.files[o.F].Render(w)
+		case o.Kind == OpFrag && variant == "withfile":
+			err = rl.regs[o.S].RenderWithFile(w, rl.files[o.F])
+		case o.Kind == OpFrag:
+			err = rl.regs[o.S].Render(w)
+		case o.Kind == OpGFrag && variant == "withfile":
+			err = rl.files[o.F].Group.RenderWithFile(w, rl.files[o.F2])
+		default:
+			err = rl.files[o.F].Group.Render(w)
+		}
+		return classify(err)
+	}
+	variants := []string{"withfile"}
+	if o.Kind != OpRender {
+		variants = append(variants, "plain")
+	}
+	const pre = "PRE|"
+	for _, variant := range variants {
+		rl, ok := prep()
+		if !ok {
+			return fs
+		}
+		ref := &failWriter{}
+		class0 := into(rl, variant, ref)
+		want := pre
+		if class0 == "ok" {
+			want += ref.buf.String()
+		}
+		for _, kind := range []string{"*bytes.Buffer", "*strings.Builder", "*bufio.Writer", "*os.File"} {
+			rl, ok := prep()
+			if !ok {
+				break
+			}
+			cx.Stats.OracleCases++
+			var class, got string
+			switch kind {
+			case "*bytes.Buffer":
+				b := bytes.NewBufferString(pre)
+				class = into(rl, variant, b)
+				got = b.String()
+			case "*strings.Builder":
+				b := &strings.Builder{}
+				b.WriteString(pre)
+				class = into(rl, variant, b)
+				got = b.String()
+			case "*bufio.Writer":
+				under := bytes.NewBufferString(pre)
+				b := bufio.NewWriter(under)
+				class = into(rl, variant, b)
+				b.Flush()
+				got = under.String()
+			case "*os.File":
+				path := filepath.Join(tmp, fmt.Sprintf("wk-%d.out", ci))
+				f, err := os.Create(path)
+				if err != nil {
+					continue
+				}
+				f.WriteString(pre)
+				class = into(rl, variant, f)
+				f.Close()
+				b, _ := os.ReadFile(path)
+				os.Remove(path)
+				got = string(b)
+			}
+			if class != class0 || got != want {
+				shape := "writer-type-changes-effects"
+				if class0 != "ok" && got != pre {
+					shape = "write-before-success"
+				}
+				fs = append(fs, Finding{Property: "C10", Shape: shape,
+					What: fmt.Sprintf("%v (%s) into a %s holding %q: outcome/content differ from the same call into a recording writer", o.Kind, variant, kind, pre),
+					Case: cr.Case.Text(), Expected: trunc(class0 + " " + want), Observed: trunc(class + " " + got)})
+				return fs
+			}
 		}
 	}
 	return fs
